@@ -2467,9 +2467,9 @@ void WriteCode(void) {
 #ifdef ASL_VERIF
             if (DontPrint && AV_ON(AV_EMIT)) {
                 fprintf(asl_verif_trace,
-                        "{\"e\":\"reserve\",\"pass\":%d,\"line\":%ld,\"seg\":%d,\"gran\":%d,"
+                        "{\"e\":\"reserve\",\"pass\":%d,\"line\":%ld,\"seg\":%d,\"gran\":%d,\"cpu\":%d,"
                         "\"addr\":%llu,\"ph\":%lld,\"n\":%ld}\n",
-                        (int)PassNo, (long)CurrLine, (int)ActPC, (int)Granularity(),
+                        (int)PassNo, (long)CurrLine, (int)ActPC, (int)Granularity(), (int)HeaderID,
                         (unsigned long long)ProgCounter(), (long long)Phases[ActPC],
                         (long)CodeLen);
             }
